@@ -6,12 +6,13 @@ run the given checks, undo the patch, record which check reported what.
 """
 import json, os, subprocess, sys, time
 VERIF = os.path.dirname(os.path.dirname(os.path.abspath(__file__)))
+REPO = os.environ.get("VERIF_REPO", "/repo")
 sid = sys.argv[1]
 props = sys.argv[2:]
 sdir = os.path.join(VERIF, "seeded", sid)
 patch = os.path.join(sdir, "patch.diff")
-assert subprocess.run(["git", "-C", "/repo", "status", "--porcelain"], stdout=subprocess.PIPE, text=True).stdout.strip() == "", "/repo is not clean"
-subprocess.run(["git", "-C", "/repo", "apply", patch], check=True)
+assert subprocess.run(["git", "-C", REPO, "status", "--porcelain"], stdout=subprocess.PIPE, text=True).stdout.strip() == "", REPO + " is not clean"
+subprocess.run(["git", "-C", REPO, "apply", patch], check=True)
 results = {}
 try:
     for p in props:
@@ -27,8 +28,8 @@ try:
         if q.returncode == 2:
             print(q.stderr[-1500:])
 finally:
-    subprocess.run(["git", "-C", "/repo", "checkout", "--", "."], check=True)
-    subprocess.run(["git", "-C", "/repo", "clean", "-fdq"], check=False)
+    subprocess.run(["git", "-C", REPO, "checkout", "--", "."], check=True)
+    subprocess.run(["git", "-C", REPO, "clean", "-fdq"], check=False)
 rp = os.path.join(sdir, "results.json")
 old = json.load(open(rp)) if os.path.exists(rp) else {}
 old.update(results)
